@@ -134,6 +134,27 @@ def run_spec(ctx, spec, hook):
         hook.bad.clear()
 
 
+UNI = ["\u00e9", "\u00b1", "\u00a0", "\u00ff", "\u0100", "\u03b1\u03b2", "\u2265", "\u4e2d\u6587", "\u7fff", "\u8000",
+       "\uffff", "\U00010000", "\U0001F600", "\U0010FFFF", "\u20ac 5", "na\u00efve"]
+
+
+def sprinkle_unicode(rng, spec):
+    """non-ASCII text in cells and text components (exercises the \\u escaper)"""
+    grouping = set(spec["body"].get("page_by") or []) | set(spec["body"].get("subline_by") or []) | \
+        set(spec["body"].get("group_by") or [])
+    for j, col in enumerate(spec["df"]["cols"]):
+        if col["dtype"] == "str" and col["name"] not in grouping and j != spec["_meta"]["key"]:
+            col["values"] = [v if v is None or rng.random() < 0.5 else v + rng.choice(UNI) for v in col["values"]]
+    for key in ("title", "subline", "footnote", "source", "page_footer"):
+        c = spec.get(key)
+        if isinstance(c, dict) and rng.random() < 0.5:
+            t = c["text"]
+            if isinstance(t, list):
+                c["text"] = [x + " " + rng.choice(UNI) for x in t]
+            else:
+                c["text"] = t + " " + rng.choice(UNI)
+
+
 def gen_random(rng):
     k = rng.random()
     if k < 0.72:
@@ -145,6 +166,14 @@ def gen_random(rng):
             convert=rng.random() < 0.8)
         if spec["body"].get("group_by") and rng.random() < 0.3:
             scramble_group_by(rng, spec)
+        if rng.random() < 0.12:
+            # every value the documentation / validators name for the row alignment
+            spec["body"]["cell_justification"] = rng.choice(["l", "c", "r", "j", "d", ""])
+        if rng.random() < 0.1:
+            spec["body"]["cell_vertical_justification"] = rng.choice(["top", "center", "bottom", "merge_first",
+                                                                      "merge_rest", ""])
+        if rng.random() < 0.3:
+            sprinkle_unicode(rng, spec)
         return spec
     if k < 0.86:
         return G.gen_multi_spec(rng, half_points=rng.random() < 0.3,
